@@ -91,7 +91,9 @@ pub struct HState {
     pub live: HashMap<u32, u32>,
     pub overlap: Option<String>,
     pub seq: u64,
-    /// (node, k): panic at the k-th invocation (0-based, counted per node)
+    /// (node, k): panic at every invocation from the k-th on (0-based,
+    /// counted per node) until cleared - a pure executor that panics once
+    /// panics again when it is re-executed
     pub panic_at: Option<(u32, u32)>,
     pub inv_count: HashMap<u32, u32>,
     pub injected_panics: u32,
@@ -294,7 +296,7 @@ impl NodeExec {
                 *c += 1;
                 k
             };
-            let do_panic = st.panic_at == Some((n, k));
+            let do_panic = st.panic_at.is_some_and(|(pn, pk)| pn == n && k >= pk);
             if do_panic {
                 st.injected_panics += 1;
             }
